@@ -70,7 +70,8 @@ def body(chk):
   for sc, seed, o in runs:
       chk.replayed()
       two = len(sc['clients']) > 1
-      kind = 'two-clients' if two else ('shutdown' if sc.get('shutdown') else 'one-client')
+      shared = two and any(cl.get('gen') is None for cl in sc['clients'])    # two requesters reading ONE generator
+      kind = 'two-waiters' if shared else 'two-clients' if two else ('shutdown' if sc.get('shutdown') else 'one-client')
       ctx = dict(kind='prefetch', scenario=sc, schedule=o['schedule'], run_seed=seed, streams=o['streams'], ends=o['ends'])
       if o['errors']:
         chk.violation(f'handler-exception:{kind}', f'[{sc["name"]}] {o["errors"]}', ctx)
